@@ -219,3 +219,57 @@ def register(reg, prog):
                           'direction': 'result.direction == Direction.INCOMING'},
                  at_exit=dec_exit,
                  replay={'kind': 'call', 'call': 'Message.decode(rawdata)', 'setup': DECODE_ORACLE})
+
+
+def bounded(tier, seed):
+    """The format table of the RFC-defined options (numbers/optionnumbers.py: module-level `set_format` calls, outside any function
+    a contract could be put on).  The deductive contracts read the table from the live module and prove each value codec against its
+    format; WHICH format an option number has is pinned here, exhaustively over the finite table the RFCs define (a complete
+    enumeration of a finite domain, still labelled as a stand-in because no obligation is generated for it)."""
+    import os
+    from aiocoap.numbers.optionnumbers import OptionNumber
+    verif = os.path.dirname(os.path.dirname(os.path.abspath(__file__)))
+    # RFC 7252 5.10, RFC 7959 2.1 / 4, RFC 7641 2, RFC 7967, RFC 8613 2, RFC 9175, RFC 9668
+    table = {1: 'opaque', 3: 'string', 4: 'opaque', 5: 'empty', 6: 'uint', 7: 'uint', 8: 'string', 9: 'opaque', 11: 'string', 12: 'uint', 14: 'uint',
+             15: 'string', 17: 'uint', 20: 'string', 21: 'empty', 23: 'block', 27: 'block', 28: 'uint', 35: 'string', 39: 'string', 60: 'uint',
+             252: 'opaque', 258: 'uint', 292: 'opaque'}
+    viol, samples = [], []
+    for num, fmt in sorted(table.items()):
+        try:
+            v = OptionNumber(num).create_option(decode=b'\x04\x00').value
+            wire = OptionNumber(num).create_option(decode=b'\x04\x00').encode()
+        except Exception as e:
+            v, wire = e, None
+        if fmt == 'uint':
+            ok = isinstance(v, int) and int(v) == 1024 and wire == b'\x04\x00'
+        elif fmt == 'string':
+            ok = v == '\x04\x00' and wire == b'\x04\x00'
+        elif fmt in ('opaque', 'empty'):          # an option of format "empty" is carried as a zero-length opaque value by this library
+            ok = v == b'\x04\x00' and wire == b'\x04\x00'
+        else:
+            ok = tuple(v) == (64, False, 0) and wire == b'\x04\x00' if not isinstance(v, Exception) else False
+        if len(samples) < 4 and num in (6, 11, 23, 28):
+            samples.append({'option': num, 'format': fmt, 'value decoded from 0400': repr(v)})
+        if not ok:
+            path = os.path.join(verif, 'replays', 'C01-format-%d.py' % num)
+            os.makedirs(os.path.dirname(path), exist_ok=True)
+            with open(path, 'w') as f:
+                f.write('#!/venv/bin/python\n"""C01 replay (option format table): option %d has format %s in the RFCs"""\nimport sys, os\nsys.path.insert(0, os.environ.get("VERIF_REPO", "/repo"))\n'
+                        'from aiocoap.numbers.optionnumbers import OptionNumber\no = OptionNumber(%d).create_option(decode=b"\\x04\\x00")\nprint(repr(o.value), type(o).__name__)\n'
+                        'import aiocoap\nm = aiocoap.Message.decode(bytes.fromhex("40010001") + %r)\nprint(m.opt)\nsys.exit(0 if repr(o.value) == %r else 1)\n'
+                        % (num, fmt, num, _one_option(num), {'uint': '1024', 'string': repr('\x04\x00'), 'opaque': repr(b'\x04\x00'), 'empty': repr(b'\x04\x00')}.get(fmt, 'BlockwiseTuple(block_number=64, more=False, size_exponent=0)')))
+            viol.append({'what': 'option %d: a value with the bytes 04 00 decodes to %r, the RFC format of the option is %s' % (num, v, fmt), 'replay': path})
+    return [{'name': 'C01/option-format-table', 'tool': 'exhaustive enumeration of the RFC-defined option numbers (native)', 'bound': 'complete: %d option numbers' % len(table),
+             'inputs_tried': len(table), 'exhaustive': True, 'samples': samples, 'violations': viol, 'counted_as_proved': False}]
+
+
+def _one_option(num):
+    """wire form of a message body holding exactly one option `num` with the value 04 00"""
+    def ext(n):
+        if n < 13:
+            return n, b''
+        if n < 269:
+            return 13, bytes([n - 13])
+        return 14, (n - 269).to_bytes(2, 'big')
+    d, de = ext(num)
+    return bytes([(d << 4) | 2]) + de + b'\x04\x00'
